@@ -246,6 +246,10 @@ func (db *SpecDB) loadFile(path string, defaultPkg string) error {
 			db.SMT = append(db.SMT, rest)
 			db.parseSig(rest)
 			continue
+		case "sig":
+			// signature of a function the engine prelude already declares: makes it callable from clauses
+			db.parseSig(rest)
+			continue
 		case "smt_lazy":
 			// smt_lazy SYMBOL (assert ...)
 			w := strings.SplitN(rest, " ", 2)
